@@ -545,7 +545,8 @@ pub fn run_backlog(id: usize, rng: &mut Rng) -> String {
     // no injected latency here (`p_timer` lets the clock run ahead of a runnable thread, by any amount):
     // the scenario measures what is left a fixed time after the clients went away
     let cfg = Config { seed: rng.next(), p_timer: 0, p_preempt: *rng.pick(&[0u64, 0, 100]), p_atomic: *rng.pick(&[0u64, 300, 700]), max_steps: 2_000_000, ..Config::default() };
-    let conns = *rng.pick(&[1usize, 1, 2, 6, 12, 20]);
+    // (now and then more connections than any fixed cap a server might put on them)
+    let conns = if id % 40 == 17 { 300 } else { *rng.pick(&[1usize, 1, 2, 6, 12, 20]) };
     let per = if conns <= 2 { rng.range(9, 30) } else { rng.range(1, 3) };
     let take = *rng.pick(&[0usize, 0, 1, 3]);
     let ((queued, answered, taken, base, after_drop, after, left, refused), rep) = sched::run(&cfg, move || {
